@@ -31,7 +31,7 @@ CHECKS = {
     "C09": dict(
         parts=[
             dict(pkg="gate", run="^TestC09$",
-                 quick=dict(shards=4, checks=2500, timeout=240),
+                 quick=dict(shards=8, checks=700, timeout=240),
                  thorough=dict(shards=16, checks=40000, timeout=1500)),
             dict(pkg="gate", run="^TestC09Timeouts$",
                  quick=dict(shards=1, checks=1, timeout=240),
@@ -40,6 +40,57 @@ CHECKS = {
         rule="pre-drawn scenarios on the public open_game_manager API: 1..4 set-ups of 1..10 participants with fresh game counts, ready signals in every order/subset with repetitions and unknown ids, re-set-up with signals still pending or unprocessed, rebuild from GetState(), and (timeout leg, executed side by side) real 1-2 s timeout expiry; oracle = firing log obligations (at most once per set-up, not before the last missing signal unless the timeout elapsed, reported game count/participants/all ready, superseded set-up silent, unknown rejected without state change); non-trivial = >=2 participants and (duplicate | unknown | superseding set-up with pending signals | timeout firing | rebuild); distinct = distinct op sequences",
         mandatory=dict(quick=["dup", "unknown", "supersede_pending", "timeout_fire", "rebuild", "all_ready_fire", "parts_1", "parts_10"]),
         assumptions=["firing is looked for during a bounded window (30 ms grace after the last operation, 1.5 s margin around timeouts); monotonic time only as a lower bound"],
+    ),
+    "C10": dict(
+        parts=[dict(pkg="table", run="^TestC10$",
+                    quick=dict(shards=4, checks=150, timeout=300),
+                    thorough=dict(shards=16, checks=2500, timeout=1800))],
+        rule='cases = generated table histories in which, at every decision point (group requests, turns, after settlement, paused), 0-3 intruder attempts are drawn from a 5x9 actor/action matrix (current player with a disallowed kind, other participant, folded/all-in participant, seated non-participant, stranger) x (fold check call bet raise allin pass ready pay); oracle: an attempt the hand does not allow returns an error and table JSON, hand-state JSON, successful backend calls and emitted events are identical before and after; every accepted driver action is applied exactly once and announced once with player, seat, action, round, hand; non-trivial = a case with >=1 refused attempt by a dealt-in player out of turn and >=1 by a non-participant; distinct = distinct abstract traces',
+        mandatory=dict(quick=['cell:current/pass', 'cell:participant/fold', 'cell:inactive/check', 'cell:nonparticipant/call', 'cell:stranger/bet', 'attempt_group_request', 'attempt_after_settle', 'attempt_when_paused']),
+        assumptions=ASSUME_COMMON,
+    ),
+    "C11": dict(
+        parts=[dict(pkg="table", run="^TestC11$",
+                    quick=dict(shards=4, checks=150, timeout=300),
+                    thorough=dict(shards=16, checks=2500, timeout=1800)),
+               dict(pkg="table", run="^TestC11Timeout$",
+                    quick=dict(shards=1, checks=1, timeout=120),
+                    thorough=dict(shards=4, checks=1, timeout=300))],
+        rule="cases = generated hands (2..10 participants, ante on/off, dealer-blind and no-SB structures, every temperament) with drawn response orders and, with probability 0.3 per request, one withheld responder; oracle: asked set = statement's set = hand's ready-group participants; no backend step and no event change while one response is missing (after the others were processed); every opened hand settles with one result entry per participant; plus a timeout leg (tables side by side, one responder silent forever: advance not before 17 s after the causing call, not later than 17 s + margin); non-trivial = a withheld response or a skipped round; distinct = distinct abstract traces",
+        mandatory=dict(quick=['withheld_ready', 'withheld_ante', 'withheld_blinds', 'round_skipped', 'dealer_blind', 'no_sb', 'request_ante', 'timeout_leg']),
+        assumptions=ASSUME_COMMON,
+    ),
+    "C12": dict(
+        parts=[dict(pkg="table", run="^TestC12$",
+                    quick=dict(shards=4, checks=150, timeout=300),
+                    thorough=dict(shards=16, checks=2500, timeout=1800))],
+        rule='cases = generated histories with a drawn blind schedule: UpdateBlind between hands (before the open trigger), at in-hand decision points, breaks (-1) between hands and during hands, resume from a break, tables created on a break; oracle: options handed to the backend, hand meta and published game blind level = values in force when the harness released the open trigger; ante/blinds actually charged = min(amount, stack) per position; mid-hand updates change only later hands; no open and no button movement on a break; pause after a hand whose level became a break; non-trivial = a blind update or a break; distinct = distinct abstract traces',
+        mandatory=dict(quick=['update_inhand', 'update_between', 'break_after_hand', 'break_no_open', 'resume_from_break', 'created_on_break', 'ante_checked', 'blinds_checked']),
+        assumptions=ASSUME_COMMON,
+    ),
+    "C13": dict(
+        parts=[dict(pkg="table", run="^TestC13$",
+                    quick=dict(shards=4, checks=150, timeout=300),
+                    thorough=dict(shards=16, checks=2500, timeout=1800))],
+        rule='cases = generated hands whose backend executes a drawn fault plan (player-action calls by ordinal failing 1-3 consecutive times; optionally one engine-step call - CreateGame/ReadyForAll/PayAnte/PayBlinds/Next - failing); oracle: failed action returns the injected error and table JSON, hand JSON and action events are unchanged, the resubmitted action succeeds, every backend call receives the result of the last successful call, the settled hand equals a pure replay of the successful calls, an engine-step failure reaches the table error callback; non-trivial = a hand with an injected player-action failure that later settles, or a reported engine-step failure; distinct = distinct abstract traces',
+        mandatory=dict(quick=['fail_fold', 'fail_check', 'fail_call', 'fail_raise', 'fail_allin', 'fail_pass', 'fail_then_settle', 'engine_step_failure_reported', 'repeat_fail_2', 'repeat_fail_3']),
+        assumptions=ASSUME_COMMON,
+    ),
+    "C14": dict(
+        parts=[dict(pkg="table", run="^TestC14$",
+                    quick=dict(shards=4, checks=150, timeout=300),
+                    thorough=dict(shards=16, checks=2500, timeout=1800))],
+        rule='cases = generated hands with raise-heavy temperaments; oracle: at settlement ActionTimes/CallTimes/CheckTimes = accepted submissions of that kind, raises <= actions, fold flag and round exactly for accepted folds, every did-flag implies its chance flag and at most one 3-bet holder at every published snapshot, statistics zero at the fence and at the next open; non-trivial = a hand with a raise and a fold or any did-flag set; distinct = distinct abstract traces',
+        mandatory=dict(quick=['did_3b', 'did_showdown', 'participants_2', 'participants_5']),
+        assumptions=ASSUME_COMMON,
+    ),
+    "C15": dict(
+        parts=[dict(pkg="table", run="^TestC15$",
+                    quick=dict(shards=4, checks=150, timeout=300),
+                    thorough=dict(shards=16, checks=2500, timeout=1800))],
+        rule='cases = generated hands with action time 0..30 s and 0-3 deadline extensions of 0..60 s at turns; oracle: for every turn of an unmoved player with wager actions t0+ActionTime <= deadline <= t1+ActionTime (t0 before the causing call, t1 at receipt), deadline 0 on every round close, at open and between hands, extension returns and publishes old+d exactly; non-trivial = a hand with turns in >=2 rounds or an extension; distinct = distinct abstract traces',
+        mandatory=dict(quick=['turns', 'extension', 'extension_x3', 'action_time_0', 'multi_round_turns']),
+        assumptions=ASSUME_COMMON,
     ),
     "C04": dict(
         parts=[
@@ -80,5 +131,15 @@ LEVELS["C09"] = dict(
     text="Generated gate scenarios judged against the firing-log obligations of the statement; thousands of orders/subsets/repetitions/superseding set-ups per run plus a side-by-side batch with real timeout expiry. Schedule-dependent defects are sampled, not enumerated.",
     design_ref="DESIGN.md section 3 C09", technique="property-based testing (rapid) over pre-drawn operation scenarios with a history (firing log) oracle",
     note="'Never fires twice / never fires' are bounded observation windows; concurrent callers are not part of this check.")
+
+def _lv(text, ref, tech, note):
+    return dict(text=text, design_ref=ref, technique=tech, note=note)
+
+LEVELS["C10"] = _lv("Generated intruder attempts at every kind of decision point with a byte-identical-state oracle for refusals and an exactly-once/announced oracle for acceptances; the full 5x9 actor/action matrix is hit in every run.", "DESIGN.md section 3 C10", "stateful property-based testing (rapid): metamorphic state-unchanged oracle over generated illegal actions", "Sequential attempts only (concurrent submission is C16). Attempts are made at quiescent decision points.")
+LEVELS["C11"] = _lv("Generated response orders and withheld responders against the asked-set, no-early-advance, self-advance and termination obligations, plus a real 17 s timeout leg run side by side.", "DESIGN.md section 3 C11", "stateful property-based testing (rapid) with a history oracle over the backend call log; batched real-timeout sampling", "No-early-advance is checked after the other responses were observed as processed through the ready-group accessor; a premature advance still in flight could be missed (false negative only).")
+LEVELS["C12"] = _lv("Generated blind schedules with updates at ordered moments relative to the open; the in-force values are tracked by the harness and compared with what the backend was given, what was charged and what was published.", "DESIGN.md section 3 C12", "stateful property-based testing (rapid) with a reference model of the blinds in force", "pokerface skips blind collection for BB-only structures (labelled, not blamed on the table).")
+LEVELS["C13"] = _lv("Generated fault plans through the public GameBackend interface; unchanged-on-failure, chain-integrity and differential pure-replay oracles.", "DESIGN.md section 3 C13", "fault-injecting property-based testing (rapid) with a differential replay oracle", "Only clean failures (error, no state) are injected.")
+LEVELS["C14"] = _lv("Counters compared with the harness's log of accepted actions, flag implications checked on every published snapshot.", "DESIGN.md section 3 C14", "stateful property-based testing (rapid) with an action-log reference model", "On this tree most chance flags are never set (validateGameStatisticGameState tests for the event 'Started'), so their implications hold vacuously; reported in DESIGN.md.")
+LEVELS["C15"] = _lv("Wall-clock bracket (no tolerance constant) on every turn deadline, exact arithmetic on extensions, cleared-at checks.", "DESIGN.md section 3 C15", "stateful property-based testing (rapid) with an interval oracle", "Second granularity: errors below the bracket width are invisible.")
 
 NOT_APPLICABLE = []
